@@ -13,7 +13,7 @@
    named results and names shared by the two levels of uncurry are all covered.
    FUEL + k is any sufficient amount of evaluator fuel. *)
 From Coq Require Import String Ascii List.
-From Verif Require Import Base Plumb.Model Plumb.Proofs.
+From Verif Require Import Base Plumb.Model Plumb.Proofs Plumb.Shared.
 Import ListNotations.
 Open Scope string_scope.
 Open Scope list_scope.
@@ -79,6 +79,45 @@ Theorem C15_uncurry_curry_id :
   = ROk (prim_results res (length (s_results s)) [a1 :: rest]) [(0, a1 :: rest)].
 Proof. exact uncurry_curry_id. Qed.
 Print Assumptions C15_uncurry_curry_id.
+
+(* One derived function, several call sites: goderive identifies the function a call asks for by the
+   types of its arguments only, so calls that pass functions of identical type and other parameter /
+   result names (and, with --dedup, calls that ask for other function names) are served by the one
+   function printed for the signature [s] that registered first.  Applied to an original function
+   of any signature [t] of the same types it plumbs as the property demands of [t]; nothing is
+   assumed about the names of [t]. *)
+Theorem C15_shared_call_sites :
+  forall (res : nat -> list (list val) -> val) (s t : sig) (k : nat),
+  same_sig_types s t ->
+  s_variadic s = false ->
+  src_ok (names (s_params s)) (names (s_results s)) = true ->
+  (forall a1 rest, 2 <= length (s_params s) -> length (a1 :: rest) = length (s_params t) ->
+     run_curry res hygienic (FUEL + k) s (prim_flat t) (a1 :: rest)
+     = ROk (prim_results res (length (s_results t)) [a1 :: rest]) [(0, a1 :: rest)])
+  /\ (forall x1 x2 xs, length (x1 :: x2 :: xs) = length (s_params t) ->
+     run_flip res hygienic (FUEL + k) s (prim_flat t) (x1 :: x2 :: xs)
+     = ROk (prim_results res (length (s_results t)) [x2 :: x1 :: xs]) [(0, x2 :: x1 :: xs)])
+  /\ (forall vs bound, length (vs ++ [bound]) = length (s_params t) ->
+     run_apply res hygienic (FUEL + k) s (prim_flat t) (vs ++ [bound])
+     = ROk (prim_results res (length (s_results t)) [vs ++ [bound]]) [(0, vs ++ [bound])])
+  /\ (forall a1 rest, 2 <= length (s_params s) -> length (a1 :: rest) = length (s_params t) ->
+     run_roundtrip res hygienic (FUEL + k) s (prim_flat t) (a1 :: rest)
+     = ROk (prim_results res (length (s_results t)) [a1 :: rest]) [(0, a1 :: rest)]).
+Proof. exact shared_call_sites. Qed.
+Print Assumptions C15_shared_call_sites.
+
+Theorem C15_shared_call_sites_uncurry :
+  forall (res : nat -> list (list val) -> val) (c d : csig) (vo vi : list val) (k : nat),
+  same_csig_types c d ->
+  c_variadic c = false ->
+  nodupb (filter bindable (names (c_outer c))) = true ->
+  src_ok (names (c_inner c)) (names (c_results c)) = true ->
+  length (c_outer c) = 1 ->
+  length vo = length (c_outer d) -> length vi = length (c_inner d) ->
+  run_uncurry res hygienic (FUEL + k) c (prim_curried d) (vo ++ vi)
+  = ROk (prim_results res (length (c_results d)) [vo; vi]) [(0, vo); (1, vi)].
+Proof. exact shared_uncurry. Qed.
+Print Assumptions C15_shared_call_sites_uncurry.
 
 (* derive.UnusedName: the loop `for isUsed(name) { name += "_" }` ends on a name that is not taken
    (within length taken rounds) *)
